@@ -1526,3 +1526,36 @@ _FF_OLD2 = """        let flag_byte_index = i as usize / 2;
 _FF_NEW2 = "        let flag_nibble = flag_field(i as usize);\n"
 benign('benign-c14-flag-field-accessor', 'C14', DEC, _FF_OLD1, _FF_NEW1 % 'num_atom_cache_refs as usize', more=[(DEC, _FF_OLD2, _FF_NEW2)])
 canary('c14-flag-field-accessor-last-field', 'C14', DEC, _FF_OLD1, _FF_NEW1 % 'flags_len * 2 - 1', 'longatoms-wrong-field', more=[(DEC, _FF_OLD2, _FF_NEW2)])
+_DLV_ARM_OLD = """                if let OwnedTerm::Pid(from) = from_pid
+                    && let OwnedTerm::Pid(to) = to_pid
+                    && let Some(handle) = registry.get(&to).await
+                {
+                    handle.send(Message::Exit { from, reason }).await?;
+                }"""
+_DLV_ARM_NEW = """                if let OwnedTerm::Pid(from) = from_pid
+                    && let OwnedTerm::Pid(to) = to_pid
+                {
+                    registry
+                        .deliver(&to, Message::Exit { from, reason })
+                        .await?;
+                }"""
+_DLV_ANCHOR = "    pub async fn register(&self, name: Atom, pid: ExternalPid) -> Result<()> {"
+_DLV_HELPER_GOOD = """    pub async fn deliver(&self, pid: &ExternalPid, msg: crate::mailbox::Message) -> Result<bool> {
+        let handle = self.get(pid).await;
+        match handle {
+            Some(handle) => handle.send(msg).await.map(|_| true),
+            None => Ok(false),
+        }
+    }
+
+""" + _DLV_ANCHOR
+_DLV_HELPER_BAD = """    pub async fn deliver(&self, pid: &ExternalPid, msg: crate::mailbox::Message) -> Result<bool> {
+        match self.by_pid.read().await.get(pid) {
+            Some(handle) => handle.send(msg).await.map(|_| true),
+            None => Ok(false),
+        }
+    }
+
+""" + _DLV_ANCHOR
+benign('benign-c19-deliver-helper', 'C19', 'crates/edp_node/src/node.rs', _DLV_ARM_OLD, _DLV_ARM_NEW, more=[('crates/edp_node/src/registry.rs', _DLV_ANCHOR, _DLV_HELPER_GOOD)])
+canary('c19-deliver-helper-holds-table', 'C19', 'crates/edp_node/src/node.rs', _DLV_ARM_OLD, _DLV_ARM_NEW, 'rwlock-guard-across-await', more=[('crates/edp_node/src/registry.rs', _DLV_ANCHOR, _DLV_HELPER_BAD)])
